@@ -94,17 +94,47 @@ def c17ArgOfJson (j : Json) (k : String) (dflt : PyArg) : R PyArg :=
   | .ok (.str s) => pure (.str s)
   | .ok _ => pure .other
 
+def c17MeshOpOfJson (j : Json) : R MeshOp := do
+  match ← strOfJson (← fld j "op") with
+  | "translate" => pure (.translate (← rats j "v"))
+  | "scale" =>
+    let f ← fld j "f"
+    let fac ← match f with
+      | .arr _ => T.Factor.vec <$> listOf ratOfJson f
+      | _ => T.Factor.scalar <$> ratOfJson f
+    let ref ← c17OptRats j "ref"
+    pure (.scale fac ref)
+  | o => throw s!"unknown mesh op {o}"
+
+/-- the answers of the real class to `hasattr(field, c)` for the labels occurring in the
+request (`"attrs"`: the labels for which the answer is yes; absent = none) -/
+def c17AttrsInst (j : Json) : R FieldAttrs := do
+  let lst ← match fldOpt j "attrs" with
+    | none => pure []
+    | some v => listOf strOfJson v
+  pure ⟨fun c => lst.contains c⟩
+
 /-- ops of property C17 -/
 def c17 (op : String) (j : Json) : Option (R Json) :=
   match op with
   | "export" => some do
+      let inst ← c17AttrsInst j
       let f ← c17FldOfJson (← fld j "field")
       let name ← c17ArgOfJson j "name" (.str "field")
       let unit ← c17ArgOfJson j "unit" .none
-      pure ((resJ c17XaToJson (toXarray f name unit)).setObjVal! "wf" (.bool f.wfB))
+      pure ((resJ c17XaToJson (toXarray f name unit)).setObjVal! "wf" (.bool (@XFld.wfB inst _ f)))
+  | "export_hist" => some do
+      -- the field as it was BEFORE the in-place calls on its mesh, the calls, then `to_xarray`
+      let inst ← c17AttrsInst j
+      let f ← c17FldOfJson (← fld j "field")
+      let ops ← listOf c17MeshOpOfJson (← fld j "ops")
+      let name ← c17ArgOfJson j "name" (.str "field")
+      let unit ← c17ArgOfJson j "unit" .none
+      pure ((resJ c17XaToJson (exportAfter f ops name unit)).setObjVal! "wf" (.bool (@XFld.wfB inst _ (f.run ops))))
   | "import" => some do
+      let inst ← c17AttrsInst j
       match fldOpt j "xa" with
-      | none => pure (resJ c17FldToJson (fromXarray (PyObj.other : PyObj String)))
+      | none => pure (resJ c17FldToJson (@fromXarray inst _ (PyObj.other : PyObj String)))
       | some x =>
         let xa ← c17XaOfJson x
         -- how far each geometric coordinate is from the spacing threshold: the largest
@@ -115,7 +145,7 @@ def c17 (op : String) (j : Json) : Option (R Json) :=
             (if (diffs a.values).all (· == 0) then 0 else 1000000)
           else listMax ((diffs a.values).map fun d =>
             absR (d - meanDiff a.values) / (1/100000 * absR (meanDiff a.values)))
-        pure ((resJ c17FldToJson (fromXarray (.dataArray xa))).setObjVal! "margin" (ratsJ margin))
+        pure ((resJ c17FldToJson (@fromXarray inst _ (.dataArray xa))).setObjVal! "margin" (ratsJ margin))
   | _ => none
 
 end DFV.Drv
